@@ -40,7 +40,7 @@ remainder of `a` (`relative_to_on_class`), and resolving it against `b` gives a 
 from `f12` (`class_outside_f12`).  (iv) **every whole-target fallback** of a target with an
 authority outside `f12` round-trips against every base (`roundtrip_whole_fallback_partial`; taken
 e.g. when only the target has an authority, `relative_to_authority_one_sided`).  PARTIAL: outside that class (relative paths without authority, the root
-seen from its own level, fallbacks of rootless targets) the round trip is judged on the implementation by the oracle on every
+seen from its own level, same-scheme pairs of rootless paths) the round trip is judged on the implementation by the oracle on every
 generated pair: a failing pair outside `f12`, or any difference between model and implementation,
 is a violation.
 -/
@@ -265,6 +265,29 @@ theorem roundtrip_whole_fallback_noauth_partial (G : Grammar) (ok : Lemmas.Gramm
     ∃ r t, Ref.relative_to a b = some r ∧ Ref.resolve r b = some t ∧ key t = key a := by
   obtain ⟨w, t, e1, e2, hk⟩ := Lemmas.whole_roundtrip_noauth_abs G ok okp a b ha haa hpa hhd
   exact ⟨w, t, by rw [hw, e1], e2, hk⟩
+
+/-- … and for every target without authority whose path is relative or empty (`urn:a/b`, `s:a/../b`,
+`s:../x`, `s:`), whose first normalised segment is not empty and whose normalised segments do not
+end in an unresolved `..` (that is `f12`) -/
+theorem roundtrip_whole_fallback_rootless_partial (G : Grammar) (ok : Lemmas.Grammar.Ok G) (okp : Lemmas.Grammar.OkPath G)
+    (a b : Text) (ha : RE.Matches G.full a)
+    (haa : (split a).authority = none) (hpa : isAbs (split a).path = false)
+    (hhd : (nsegs (split a).path).head? ≠ some [])
+    (hlast : (nsegs (split a).path).getLast? ≠ some segDotDot)
+    (hw : Ref.relative_to a b = Ref.whole a) :
+    ∃ r t, Ref.relative_to a b = some r ∧ Ref.resolve r b = some t ∧ key t = key a := by
+  obtain ⟨w, t, e1, e2, hk⟩ := Lemmas.whole_roundtrip_noauth_rel G ok okp a b ha haa hpa hhd hlast
+  exact ⟨w, t, by rw [hw, e1], e2, hk⟩
+
+/-- non-vacuity: `s:x/../../a` relative to `t://h/p` is the whole target normalised, `s:../a`, and
+resolving it (the reference has a scheme) gives it back -/
+example :
+    let a : Text := [0x73,0x3A,0x78,0x2F,0x2E,0x2E,0x2F,0x2E,0x2E,0x2F,0x61]
+    let b : Text := [0x74,0x3A,0x2F,0x2F,0x68,0x2F,0x70]
+    (split a).authority = none ∧ isAbs (split a).path = false ∧
+    nsegs (split a).path = [[0x2E,0x2E],[0x61]] ∧
+    Ref.relative_to a b = Ref.whole a ∧ Ref.whole a = some [0x73,0x3A,0x2E,0x2E,0x2F,0x61] ∧
+    Ref.resolve [0x73,0x3A,0x2E,0x2E,0x2F,0x61] b = some [0x73,0x3A,0x2E,0x2E,0x2F,0x61] := by decide
 
 /-- an authority on the target's side only: the fallback is taken -/
 theorem relative_to_authority_one_sided (G : Grammar) (ok : Lemmas.Grammar.Ok G) (a b aa : Text)
